@@ -17,6 +17,16 @@ VALUE = XLError('#VALUE!')
 DATA = XLError('#GETTING_DATA')
 
 
+def forget_traceback(exc):
+    """
+    The error values above are shared singletons. Every time one of them is
+    raised python chains a new traceback in front of the one it already
+    carries, so a long-lived process would keep the frames (and their locals)
+    of every failed evaluation alive. Call this where a raised error is caught.
+    """
+    exc.__traceback__ = None
+
+
 def from_message(message):
     errdict = {
         '#ERROR!': ERROR,
